@@ -67,7 +67,7 @@ TRUSTED = [
 PARTIAL = [
     "torch-DDP gradient averaging under DistributedPerLayerOptimizer is a modelled parameter validated by the correspondence only",
     "grad_sample_mode='ew' rejects empty batches inside torch's ExpandedWeights (outside the anchors, identical in single-process mode): empty shards for SimpleDistributedPerLayerOptimizer are exercised through direct construction over the hooks GradSampleModule",
-    "accumulated_iterations is 1 in every generated case (virtual steps / BatchMemoryManager belong to C10/C11)",
+    "virtual steps on the workers (signal_skip_step, 2-3 physical batches per logical step) are exercised for the flat, ghost and simple per-layer optimizers under the DPDDP wrapper; the model treats a logical step as one unit (the protocol itself is C10/C11's); gradient accumulation without skip signals (accumulated_iterations > 1) is not generated",
 ]
 
 WORKER = Path(wk.__file__).resolve()
@@ -145,7 +145,19 @@ def gen_config(rng, W, variant=None, allow_empty=True, T=3, idx=0, **force):
         # a frozen parameter that differs between the workers before wrapping (1 on rank 0, 1 + rank elsewhere)
         frozen=(rng.random() < 0.35),
     )
+    # virtual steps on the workers (BatchMemoryManager style): only where backward does not communicate (DPDDP wrapper)
+    cfg["micro"] = rng.choice([2, 3]) if (variant in ("flat", "ghost", "perlayer_simple") and wrap is None and rng.random() < 0.4) else 1
+    if cfg["micro"] > 1:
+        cfg["closure"] = False
     cfg.update(force)
+    return cfg
+
+
+def gen_until(rng, pred, *a, **kw):
+    for _ in range(200):
+        cfg = gen_config(rng, *a, **kw)
+        if pred(cfg):
+            return cfg
     return cfg
 
 
@@ -626,6 +638,16 @@ def plan_configs(ctx):
         if cfg["variant"] == "perlayer_hooks":
             cfg = gen_config(ctx.rng, W, variant="perlayer_hooks", allow_empty=False, idx=idx)
         by_W.setdefault(W, []).append(cfg)
+    # every run has: mean reduction with an empty shard (flat and simple per-layer), and virtual steps under ghost
+    # clipping and the flat optimizer with shards of two and more samples
+    has_empty = lambda c: any(not sh for st in c["steps"] for sh in st)          # noqa: E731
+    big = lambda c: any(len(sh) >= 2 for st in c["steps"] for sh in st[1:])      # noqa: E731
+    for W, v, kw, pred in ((3, "flat", {"reduction": "mean", "wrap": None}, has_empty),
+                           (2, "perlayer_simple", {"reduction": "mean", "path": "direct", "wrap": None}, has_empty),
+                           (2, "ghost", {"micro": 2, "closure": False}, big),
+                           (3, "flat", {"micro": 2, "closure": False, "wrap": None}, big)):
+        idx += 1
+        by_W.setdefault(W, []).append(gen_until(ctx.rng, pred, W, variant=v, idx=idx, **kw))
     tail = {2: [witness_empty()]}
     for W in ((2, 3, 4) if ctx.thorough else (3,)):
         for _ in range(20):
